@@ -971,8 +971,11 @@ class RedlineEngine:
 
         return applied, skipped
 
+    def _find_changes(self, tag: str, target_id: str):
+        return [el for el in self.doc.element.xpath(f"//{tag}") if el.get(qn("w:id")) == target_id]
+
     def _accept_change(self, target_id: str) -> bool:
-        ins_nodes = self.doc.element.xpath(f"//w:ins[@w:id='{target_id}']")
+        ins_nodes = self._find_changes("w:ins", target_id)
         for ins in ins_nodes:
             parent = ins.getparent()
             index = parent.index(ins)
@@ -981,18 +984,18 @@ class RedlineEngine:
                 index += 1
             parent.remove(ins)
 
-        del_nodes = self.doc.element.xpath(f"//w:del[@w:id='{target_id}']")
+        del_nodes = self._find_changes("w:del", target_id)
         for d in del_nodes:
             d.getparent().remove(d)
 
         return bool(ins_nodes or del_nodes)
 
     def _reject_change(self, target_id: str) -> bool:
-        ins_nodes = self.doc.element.xpath(f"//w:ins[@w:id='{target_id}']")
+        ins_nodes = self._find_changes("w:ins", target_id)
         for ins in ins_nodes:
             ins.getparent().remove(ins)
 
-        del_nodes = self.doc.element.xpath(f"//w:del[@w:id='{target_id}']")
+        del_nodes = self._find_changes("w:del", target_id)
         for d in del_nodes:
             parent = d.getparent()
             index = parent.index(d)
